@@ -34,7 +34,8 @@ func (self *Compiler) popScope() {
 }
 
 func (self *Compiler) mangleFn(input string) string {
-	mangled := fmt.Sprintf("@%s_%s", self.currModule, input)
+	// The separator cannot occur in a function name: `get` of module `a_b` and `b_get` of module `a` stay distinct.
+	mangled := fmt.Sprintf("@%s.%s", self.currModule, input)
 	return mangled
 }
 
@@ -60,7 +61,9 @@ func (self *Compiler) mangleVar(input string) string {
 		self.varNameMangle[input]++
 	}
 
-	mangled := fmt.Sprintf("@%s_%s%d", self.currModule, input, cnt)
+	// The separators cannot occur in an identifier: the 11th `x` (x#10) and the first `x1` (x1#0) stay distinct,
+	// and so do `x` of module `a_b` and `b_x` of module `a`.
+	mangled := fmt.Sprintf("@%s.%s#%d", self.currModule, input, cnt)
 	(*self.currScope)[input] = mangled
 
 	return mangled
@@ -75,7 +78,7 @@ func (self *Compiler) mangleLabel(input string) string {
 		self.labelNameMangle[input]++
 	}
 
-	mangled := fmt.Sprintf("%s_%s%d", self.currModule, input, cnt)
+	mangled := fmt.Sprintf("%s.%s#%d", self.currModule, input, cnt)
 	return mangled
 }
 
